@@ -48,7 +48,8 @@ ASSUMPTIONS = [
 DEVIATIONS = ["none", "ui-header", "signer-header", "one-short", "one-long", "other-hash",
               "other-order", "ui-other-btc-key", "none", "none"]
 KEYS_ALT = ["none", "none", "none", "replace-one", "rename-path", "rename-keeping-order",
-            "drop-btc", "empty", "not-object", "invalid-key", "compressed", "extra-key"]
+            "drop-btc", "empty", "not-object", "invalid-key", "compressed", "extra-key",
+            "other-wallet-paths", "other-wallet-paths"]
 ROOT_ALT = ["none", "none", "none", "other", "broken-self-signature", "expired"]
 
 
@@ -80,6 +81,22 @@ def run_one(ch, cfg):
         byz["keys_order"] = list(reversed(ORDERED_PATHS))
     elif deviation == "ui-other-btc-key":
         byz["ui_btc_key"] = Key(scalar(b"otherbtc" + ch.bytes(4, "btc"))).pub33
+    wallet_paths = None
+    if keys_alt == "other-wallet-paths":
+        if deviation == "other-order":
+            keys_alt = "none"
+        else:
+            # a device authorised for another set of paths (index numbers of different widths, so that
+            # string order and numeric order differ); it hashes its keys in the documented order:
+            # lexicographic by the UTF-8 path
+            nums = [1, 2, 9, 10, 11, 20, 100, 137]
+            wallet_paths = {ORDERED_PATHS[0]}
+            for _ in range(2 + ch.draw(5, "wallet.npaths")):
+                wallet_paths.add("m/44'/%d'/%d'/0/%d" % (ch.pick(nums, "wallet.coin"),
+                                                        ch.pick([0, 1, 2, 10], "wallet.acct"),
+                                                        ch.pick([0, 0, 1, 12], "wallet.idx")))
+            wallet_paths = sorted(wallet_paths)
+            byz["keys_order"] = list(wallet_paths)
     ud = ch.bytes(32, "ud")
     viol = []
     if platform == "ledger":
@@ -127,6 +144,9 @@ def run_one(ch, cfg):
         for p in list(keys):
             pt = att_ledger.parse_pubkey(bytes.fromhex(keys[p]))
             keys[p] = (bytes([2 + (pt.y() & 1)]) + pt.x().to_bytes(32, "big")).hex()
+    elif keys_alt == "other-wallet-paths":
+        from sim.devices.ledger_admin import path_binary
+        keys = {p: dev.pubkey_for(path_binary(p)).hex() for p in ch.shuffle(wallet_paths, "wallet.order")}
     elif keys_alt == "extra-key":
         keys["m/44'/0'/0'/0/1"] = Key(scalar(b"extra" + ch.bytes(4, "keys.extra"))).pub65.hex()
     w.fs.put(A.KEYS_JSON, json.dumps(keys).encode())
